@@ -51,4 +51,14 @@ func init() {
 		Real:        []string{"RaftBackend, RaftTransaction, applyLog", "FSM.ApplyBatch, fsmTxnCommitIndexTracker", "NewFSM reopen", "BoltSnapshotStore + FSM.Restore", "hashicorp/raft single node (leader side)"},
 		Stub:        []string{"Raft transport (in-memory)", "clock (synctest)", "replica side of the Raft protocol (entries are handed to ApplyBatch by the harness)"},
 	}
+	props["C01"] = propCfg{
+		Level: "fault_enumeration", QuickS: 60, ThoroughS: 600, Chunk: 400,
+		Rule:        "Tamper runs (11 of 12): a barrier (root or namespace; transactional or plain disk; 0-3 rotations; v2 and legacy v1 records; value lengths 0..4096; writes through Put and through BeginTx().Put) is built, then for every data record every single-bit flip (exhaustive up to 256 bytes, strided above in the quick tier), every truncation length, extensions, term and version header rewrites and a transplant of every other record are applied to the simulated disk at rest and read back through Get / transactional Get; keyring and root-key records get the same treatment through Unseal (fresh instance), ReloadKeyring and ReloadRootKey. Monitor runs (1 of 12): a whole Core executes 8-20 API operations (kv v1/v2, policies, tokens, cubbyhole, wrapping, logins, leases, rotate, namespaces, identity, UI headers, sys/raw, seal/unseal) carrying unique canaries while every physical write is inspected. An evaluation is one corrupted read or one inspected write.",
+		LevelText:   "Enumeration of the corruption space of each stored record inside seeded barrier configurations: the result of every corrupted read must be an error - never a panic, never another value (legacy records may relocate and must equal their source) - plus a dynamic monitor on every physical write of a simulated Core: no canary in raw/hex/base64 form, and every record either AEAD-opens under one of the core's barriers with its storage key as AAD or is on the fixed allow-list of bootstrap records.",
+		LevelNote:   "Trusted: Go's AES-GCM; the harness. 'Every call site that writes to the physical backend directly' is decided dynamically for the executed paths (init, unseal, rotate, namespace creation, API workload), not by static analysis. Older-term records of the same key (replay) are outside the statement. ui.go's config_plaintext record (operator-set response headers, served while sealed) is allow-listed by exact key.",
+		Technique:   "deterministic simulation: seeded barrier histories with exhaustive at-rest corruption of each record (fault enumeration) and a plaintext/direct-write monitor on the simulated disk of a whole Core",
+		Assumptions: []string{"AES-GCM is a secure AEAD", "corruption happens at rest (not torn inside one Put)"},
+		Real:        []string{"AESGCMBarrier / TransactionalAESGCMBarrier (encrypt, decrypt, Unseal, ReloadKeyring, ReloadRootKey, Rotate)", "keyring serialization", "vault.Core + kv, token store, cubbyhole, identity, namespaces, sys/raw (monitor runs)"},
+		Stub:        []string{"disk (simdisk)", "clock (synctest) in monitor runs"},
+	}
 }
